@@ -1038,11 +1038,16 @@ IX_NAMES = {"src4": "SourceIpv4address", "src6": "SourceIpv6address", "dst4": "D
             "first": "FlowStartSysUpTime", "last": "FlowEndSysUpTime", "smac": "SourceMacaddress", "dmac": "DestinationMacaddress"}
 
 
-def project(rec, names, proto_from, cls_prefix):
-    """rec: list of (name, value tree).  -> (expected flow dict, classes of accepted deviations)"""
+IANA_NUMBER = dict({name: n for n, name in iana.PROTO.items()}, Reserved=255)
+
+
+def project(rec, names, proto_from, cls_prefix, lens=None):
+    """rec: list of (name, value tree).  -> (expected flow dict, classes of accepted deviations).
+    lens: name -> length the template gave the field (None when unknown)"""
     vm = {}
     for name, v in rec:
         vm[name] = v
+    lens = lens or {}
     classes = set()
 
     def ip(a, b):
@@ -1058,11 +1063,22 @@ def project(rec, names, proto_from, cls_prefix):
         if v is None:
             return None
         if v[0][0] == "DataNumber":
-            return ("num", v[0][1])
+            return ("num", v[0][1], lens.get(names[key]))
         if v[0][0] == "ProtocolType":
+            # V9 decodes PROTOCOL as a name: the view must give the number of that name (repair
+            # 39ac76d); only `Unknown` (byte 145) does not keep its number
+            n = IANA_NUMBER.get(v[0][1])
+            if cls_prefix.endswith("v9") and key == "proto" and n is not None:
+                return ("must", n)
             classes.add(cls_prefix + "_protocol")
             return "ANY"
         if v[0][0] == "Duration":
+            # V9 decodes FIRST/LAST_SWITCHED as durations: the view must give the millisecond
+            # count whenever it fits 32 bits
+            d = plain(v[0][1])
+            ms = d["secs"] * 1000 + d["nanos"] // 1000000
+            if cls_prefix.endswith("v9") and key in ("first", "last") and ms < 2 ** 32:
+                return ("must", ms)
             classes.add(cls_prefix + "_switched")
             return "ANY"
         return "ABSENT?"
@@ -1097,6 +1113,11 @@ def flow_diff(exp, got, widths, cls_prefix, proto_from):
             n = want[1]
             bits = widths[key]
             if have is None and isinstance(n, int):
+                flen = want[2] if len(want) > 2 else None
+                if want[0] == "must" or (flen is not None and flen * 8 == bits):
+                    out.append((None, "%s absent although the record has the field%s (value %r)"
+                                % (key, " with the width of the common field" if want[0] != "must" else "", n)))
+                    continue
                 # the decoded number exists but has another width than the common field:
                 # accepted deviation (value kinds the conversion does not accept)
                 out.append((cls_prefix + "_width", "%s absent although the record has the field (decoded with another width)" % key))
@@ -1184,10 +1205,13 @@ def c13(case, obs, crash, tables):
                 if len(fields) != len(rec):
                     return rec, names
                 out = []
+                lens = {}
                 for q, (_nm, v) in zip(fields, rec):
                     ent = get(q, "enterprise_number")
-                    out.append((("#E%d" if ent is not None else "#%d") % get(q, "field_type_number"), v))
-                return out, {role: "#%d" % n for role, n in ROLE_NUMBERS.items()}
+                    nm2 = ("#E%d" if ent is not None else "#%d") % get(q, "field_type_number")
+                    out.append((nm2, v))
+                    lens[nm2] = get(q, "field_length")
+                return out, dict({role: "#%d" % n for role, n in ROLE_NUMBERS.items()}, __lens__=lens)
 
             rec_names = []
             for fs in get(b, "flowsets"):
@@ -1226,16 +1250,16 @@ def c13(case, obs, crash, tables):
                     f.append((None, "op %d: %s %d data records, %d common flows" % (k, kind, len(records), len(flows))))
                 continue
             for rec, fl, nm in zip(records, flows, rec_names):
-                exp, classes = project(rec, nm, proto_from, pre)
+                exp, classes = project(rec, nm, proto_from, pre, nm.get("__lens__"))
                 for cls, msg in flow_diff(exp, fl, widths, pre, proto_from):
                     f.append((cls, "op %d: %s: %s" % (k, kind, msg)))
                 gl = plain(fl)
                 for c_ in classes:
                     key = "protocol_number" if c_.endswith("_protocol") else None
                     if c_.endswith("_protocol") and gl.get("protocol_number") is None:
-                        f.append((c_, "%s record has a protocol field (decoded as a protocol name) but the common flow has no protocol number/name" % kind))
+                        f.append((c_, "%s record has a protocol field decoded as Unknown (byte 145 keeps no number): the common flow has no protocol number/name" % kind))
                     if c_.endswith("_switched") and (gl.get("first_seen") is None or gl.get("last_seen") is None):
-                        f.append((c_, "%s record has first/last switched (decoded as durations) but the common flow lacks them" % kind))
+                        f.append((c_, "%s record has first/last switched whose millisecond count exceeds 32 bits: the common flow lacks them" % kind))
     # F ops: flat view = concatenation of the flows of the non-error packets of the twin B op
     bp = {}
     for (op, o) in zip(ops, obs):
